@@ -493,5 +493,8 @@ func c16R5(p *engine.Prog, r *engine.Report) {
 	for _, f := range names {
 		r.Check(fresh[f], "C16-R5", "KeysPool.Clear|re-creates "+f, p.Pos(clear.Pos()), "fresh map stored on the epoch switch (filled at "+filled[f]+")", "KeysPool."+f+" is read when a solver asks for a flip key and is filled during the epoch, but survives Clear: after the epoch switch a recipient is answered from the previous epoch's keys/packages (wrong key, or a slot encrypted for whoever held that index last epoch)")
 	}
-	r.Floor("C16-R5", 2, "flipKeys, flipKeyPackages, privateKeysArrayCache")
+	// the flip store and the node's own flip keys are per-epoch as well
+	resetCompletenessRule(p, r, "C16-R5", "core/flip", "Flipper", "Clear", map[string]string{},
+		"flips, readiness marks or the node's own flip encryption keys of the finished epoch are used in the next one: authors encrypt with, and solvers are served from, last epoch's material")
+	r.Floor("C16-R5", 5, "3 KeysPool containers + Flipper fields")
 }
